@@ -593,7 +593,7 @@ def o7_4b_witness_ok(w, out):
 # ---------------------------------------------------------------- O7.4c pick_level_for_memtable_output
 def o7_4c_pick_level(mir, tier):
     fn = mir.method('Version', 'pick_level_for_memtable_output')
-    shapes = [(1, 1, 1, 1), (2, 0, 1, 0), (0, 2, 0, 1), (0, 0, 2, 2)] if tier == 'quick' else [s for s in itertools.product(range(0, 3), repeat=4) if sum(s) <= 5]
+    shapes = [(1, 1, 1, 1), (2, 0, 1, 0), (0, 2, 0, 1), (0, 0, 2, 2), (3, 0, 0, 0), (3, 1, 0, 0)] if tier == 'quick' else [s for s in itertools.product(range(0, 3), repeat=4) if sum(s) <= 5] + [(3, 0, 0, 0), (3, 1, 0, 0), (3, 1, 1, 0), (4, 0, 0, 0)]
     res = Result('O7.4c Version::pick_level_for_memtable_output', [fn.path, 'has_overlap_in_level', 'some_file_overlaps_range', 'get_overlapping_compaction_inputs', 'sum_file_sizes'],
                  'files at levels 0..3 in shapes %s; free flush range; max_file_size <= 2^40, file sizes <= 2^40' % (shapes if tier == 'quick' else '%d shapes with <= 5 files' % len(shapes),))
     t0 = time.time()
